@@ -57,13 +57,14 @@ func toyKB(nonce []byte) byte {
 	return byte(s)
 }
 
+// toySum is FNV-1a (32 bit) over nonce || s.
 func toySum(nonce, s []byte) uint32 {
-	h := uint32(17)
+	h := uint32(2166136261)
 	for _, b := range nonce {
-		h = h*31 + uint32(b) + 1
+		h = (h ^ uint32(b)) * 16777619
 	}
 	for _, b := range s {
-		h = h*31 + uint32(b) + 1
+		h = (h ^ uint32(b)) * 16777619
 	}
 	return h
 }
